@@ -763,6 +763,21 @@ func buildTargets() []*target {
 		path:  "cbor.Unmarshal(writelog.WriteLog) -> mkvs.Tree.ApplyWriteLog [tree.Insert -> doInsert -> Key.GetBit / Split with uint16 bit depths] -> Commit",
 		seeds: longKeyLogs, run: runWriteLog})
 
+	// nil (CBOR null) versus empty (CBOR h'') keys: node.Key.Equal distinguishes them.
+	var nilKeyLogs [][]byte
+	for _, l := range []writelog.WriteLog{
+		{{Key: nil, Value: []byte{1}}, {Key: []byte{0xaa}, Value: []byte{2}}, {Key: []byte{}, Value: []byte{3}}},
+		{{Key: []byte{}, Value: []byte{1}}, {Key: []byte{0xaa}, Value: []byte{2}}, {Key: nil, Value: []byte{3}}},
+		{{Key: nil, Value: []byte{1}}, {Key: []byte{}, Value: []byte{2}}},
+		{{Key: []byte{}, Value: []byte{1}}, {Key: nil, Value: nil}},
+		{{Key: nil, Value: []byte{1}}, {Key: []byte{0x00}, Value: []byte{2}}, {Key: []byte{}, Value: nil}},
+	} {
+		nilKeyLogs = append(nilKeyLogs, cbor.Marshal(l))
+	}
+	add(&target{name: "writelog-nilkey", boundary: "write logs (nil versus empty keys)", cbor: true,
+		path:  "cbor.Unmarshal(writelog.WriteLog) [null -> nil key, h'' -> empty key] -> mkvs.Tree.ApplyWriteLog [Insert/Remove -> doInsert/doRemove -> Key.Equal / GetBit] -> Commit",
+		seeds: nilKeyLogs, run: runWriteLog})
+
 	// ---------------------------------------------------------------- read requests with long keys
 	// Storage nodes answer SyncGet / SyncGetPrefixes / SyncIterate requests of untrusted peers
 	// (and runtimes issue them through the host protocol); the key is attacker-chosen. The tree
